@@ -222,3 +222,36 @@ func Harness_C02_get_atomic() {
 		verifReach("quiescent")
 	})
 }
+
+// C02 buffer_range_put: a Put that completes while the callback of the currently last value runs is still
+// visited: Buffer.Range stops only at the end of the buffer as it is when the callback has returned.
+func Harness_C02_buffer_range_put() {
+	s := verifArbitraryBuffer(2)
+	c, committed, delta := s.verifAddConsumer("c")
+	verifAssume(delta == 0)
+	rel := committed - s.off
+	verifAssume(rel >= 0 && rel < s.n)
+	putAt := verifNondetInt("put_during_callback")
+	verifAssume(putAt >= 0 && putAt < s.n-rel)
+	calls := 0
+	sawNew := false
+	err := s.b.Range(context.Background(), c, func(index int, value interface{}) bool {
+		t, ok := verifTokOf(value)
+		if index < s.n-rel {
+			verifAssert(ok && t == s.vals[rel+index], "buffer_range_visits_in_order")
+		} else {
+			verifAssert(ok && t == 777, "value_put_during_a_callback_is_visited")
+			sawNew = true
+		}
+		if index == putAt {
+			_ = s.b.Put(context.Background(), vtok(777))
+		}
+		calls++
+		return true
+	})
+	verifAssert(err == nil, "buffer_range_ok")
+	verifAssert(calls == s.n-rel+1 && sawNew, "buffer_range_reaches_the_end_of_the_buffer")
+	d, _ := s.b.Diff(c)
+	verifAssert(d == 0 && c.offset == 0, "buffer_range_leaves_nothing_unvisited")
+	verifReach("end")
+}
